@@ -649,12 +649,13 @@ def run(ctx):
     S.close()
     # verdict
     seen = set()
-    for f in R.failures:
-        k = (f["what"][:60], f.get("key"))
+    import re as _re
+    for f in sorted(R.failures, key=lambda f: len(f["replay"])):      # smallest replay of each kind first
+        k = (_re.sub(r"[-+]?[0-9][0-9.e+-]*", "#", f["what"])[:70], f.get("key"))
         if k in seen:
             continue
         seen.add(k)
-        if len(seen) > 8:
+        if len(seen) > 4:
             break
         V.fail_input(f["what"], {"requests": f["replay"]}, key=f.get("key"))
     for d in R.disagree[:3]:
